@@ -299,6 +299,7 @@ static void companions(const Edge& e) {
 static void run_monitors(const Edge& e) {
 	Parsed P; parse(e, P);
 	g_cur_edge = &e;
+	g_ghost_diverged = false;
 	const unsigned p = opt.props;
 	if (p & (1u << C01)) m01(e, P);
 	if (p & (1u << C02)) m02(e, P);
@@ -368,6 +369,34 @@ static void maybe_sample(const Edge& e) {
 	sample_texts.push(t.p);
 }
 
+// C09 look-ahead (see PlanGhost): default steps from a state whose report bits differ from the warranted ones; states met on
+// the way are interned only for the duration of the look-ahead
+static unsigned long n_lookahead = 0;
+static void ghost_lookahead(long idx, PlanGhost gh, int depth) {
+#if VX_PLANS
+	if (n_lookahead > 50000) return;
+	const size_t c0 = store.count;
+	Abs pre; memcpy(g_slot[0].bytes, store.snap(idx), INST_SIZE); G.cur = inst(0); read_abs(*inst(0), pre);
+	DevVec z; z.n = 0;
+	for (size_t k = 0; k < ops.n; ++k) {
+		if (!op_enabled(ops[k], pre) || ops[k].k == OP_COPY || ops[k].k == OP_ATTACH) continue;
+		run_edge(idx, &pre, ops[k], z); ++n_lookahead;
+		if (E.overflow || E.terminal) continue;
+		Parsed P; parse(E, P);
+		g_ghost_in = gh; g_ghost_in.valid = true; m_plans(E, P, opt.props & (1u << C09)); g_ghost_in.valid = false;
+		const PlanGhost nxt = g_ghost_out;
+		if (depth > 1 && nxt.valid) {
+			bool isnew; size_t j = store.intern(g_postkey, g_slot[0].bytes, &isnew);
+			if (isnew) { Parent p; memset(&p, 0, sizeof p); p.idx = static_cast<int32_t>(idx); p.op = ops[k]; p.depth = static_cast<uint16_t>(parents[idx].depth + 1); parents.push(p); }
+			ghost_lookahead(static_cast<long>(j), nxt, depth - 1);
+		}
+	}
+	if (store.count != c0) { store.rollback(c0); parents.n = c0; }
+#else
+	(void)idx; (void)gh; (void)depth;
+#endif
+}
+
 static void explore_op(long pre_idx, const Abs* pre, const Op& op, int maxdev, bool monitors, bool discover) {
 	static Vec<DevVec> stack;
 	stack.clear(); DevVec z; z.n = 0; stack.push(z);
@@ -390,6 +419,7 @@ static void explore_op(long pre_idx, const Abs* pre, const Op& op, int maxdev, b
 			} else if (store.find(g_postkey) < 0) die("closure violated: successor state not in the closed set (op %s)", OP_NAME[op.k]);
 		}
 		if (monitors) companions(E);   // after interning: companions re-use slot 0
+		if (monitors && (opt.props & (1u << C09)) && g_ghost_diverged && !E.terminal && !E.overflow) { const long pi = store.find(g_postkey); const PlanGhost gh = g_ghost_out; if (pi >= 0 && gh.valid) ghost_lookahead(pi, gh, 2); }
 		if (dv.n < maxdev) {
 			const int start = dv.n ? dv.pos[dv.n - 1] + 1 : 0;
 			for (int i = nch - 1; i >= start; --i) for (int alt = menu[i] - 1; alt >= 1; --alt) { DevVec c = dv; c.pos[c.n] = static_cast<uint16_t>(i); c.alt[c.n] = static_cast<uint16_t>(alt); ++c.n; stack.push(c); }
@@ -692,6 +722,7 @@ static int replay_main() {
 		Text t; edge_text(t, E, true); printf("step %d: %s\n", step, t.c()); free(t.p);
 		g_replay_flags = 0;
 		run_monitors(E);
+		if ((g_ghost_diverged || g_ghost_in.valid) && g_ghost_out.valid) { const bool was = g_ghost_in.valid; g_ghost_in = g_ghost_out; if (!was) printf("  (report bits kept by the machine differ from the warranted ones from here on; the warranted ones are carried along)\n"); } else g_ghost_in.valid = false;
 		if (E.terminal) { flagged_last = g_replay_flags; break; }
 		bool isnew; size_t idx = store.intern(g_postkey, g_slot[0].bytes, &isnew);
 		companions(E);
